@@ -33,6 +33,11 @@ const (
 // Env is the environment every go invocation runs with.
 func Env() []string {
 	env := os.Environ()
+	for i, e := range env {
+		if strings.HasPrefix(e, "PATH=") {
+			env[i] = "PATH=/opt/veriftools/go1.26.8/bin:" + strings.TrimPrefix(e, "PATH=")
+		}
+	}
 	env = append(env, "GOFLAGS=-mod=mod", "GOPROXY=off", "GOTOOLCHAIN=local", "GOSUMDB=off", "GONOSUMDB=*", "GONOSUMCHECK=1", "GOWORK=off")
 	return env
 }
@@ -161,9 +166,16 @@ type Batch struct {
 	Runner  string // path of the runner test binary
 	Plugins *Plugins
 	BuildMs int64
+	Yield   *YieldStats
 }
 
-func (b *Batch) Close() { _ = os.RemoveAll(b.Root) }
+func (b *Batch) Close() {
+	if os.Getenv("VERIF_KEEP") != "" {
+		fmt.Fprintln(os.Stderr, "keeping batch dir", b.Root)
+		return
+	}
+	_ = os.RemoveAll(b.Root)
+}
 
 // Options for building a batch.
 type Options struct {
@@ -328,14 +340,23 @@ func NewBatch(worlds []*spec.World, opt Options) (*Batch, error) {
 		}(i, w)
 	}
 	wg.Wait()
-	// source passes
-	for _, bw := range b.Worlds {
-		if bw.Refused != "" || bw.BootErr != "" {
-			continue
-		}
-		for _, pass := range opt.Passes {
-			if err := ApplyPass(pass, bw, b.ModDir); err != nil {
-				return b, fmt.Errorf("pass %s on %s: %v", pass, bw.Spec.Name, err)
+	// source passes (on the scratch copy of the generated files)
+	for _, pass := range opt.Passes {
+		switch pass {
+		case "yield":
+			st, err := ApplyYieldPass(b)
+			if err != nil {
+				return b, fmt.Errorf("yield pass: %v", err)
+			}
+			b.Yield = st
+		default:
+			for _, bw := range b.Worlds {
+				if bw.Refused != "" || bw.BootErr != "" {
+					continue
+				}
+				if err := ApplyPass(pass, bw, b.ModDir); err != nil {
+					return b, fmt.Errorf("pass %s on %s: %v", pass, bw.Spec.Name, err)
+				}
 			}
 		}
 	}
